@@ -1,6 +1,7 @@
 """tracesim: execute one plan in a fresh in-process world, with invariants evaluated at
 every quiescent point and faults injected at the backend seam / statement boundaries.
 """
+import gc
 import linecache
 import sys
 import traceback
@@ -59,6 +60,7 @@ class TraceRun:
         self.gen = None
         self.w = None
         self.leak_reported = False
+        self.pending_gc = False
         self.c04_reported = False
         self.pack_info, self.pack_out, self.extra_finals = {}, {}, {}
         self.marks = []            # (site, #events) at every step
@@ -110,7 +112,12 @@ class TraceRun:
     def cb_leave(self, rid):
         rt = self.w.runtime
         srid, g, ie, one, uie, iec = self.snap.pop()
+        while srid != rid and self.snap:
+            # an exception left a block of the block API open inside this region (no finally there): its entry goes too
+            srid, g, ie, one, uie, iec = self.snap.pop()
         exc = sys.exc_info()[0]
+        if exc is not None:
+            self.pending_gc = True
         how = "return" if exc is None else "exception"
         self.probe("region_left_by_" + how)
         if exc is not None and len(self.snap) >= 1:
@@ -217,6 +224,10 @@ class TraceRun:
 
     def cb_step(self, site, loc, model):
         self.steps += 1
+        if self.pending_gc and self.gen.local_blocks:
+            # abandoned block-variable objects (reference cycles) are collected at a fixed point of the schedule
+            self.pending_gc = False
+            gc.collect()
         info = self.gen.sites.get(site, {})
         if "desc" in info:
             self.cur_desc = info["desc"]
@@ -407,6 +418,9 @@ class TraceRun:
         fname = "<plan>"
         linecache.cache[fname] = (len(self.src), None, self.src.splitlines(True), fname)
         code = compile(self.src, fname, "exec")
+        old_unraisable = sys.unraisablehook
+        if self.gen.local_blocks:
+            sys.unraisablehook = lambda u: None    # "unclosed branches left" of an abandoned BranchingValues object
         try:
             exec(code, g)
             self.outcome = "completed"
@@ -426,6 +440,9 @@ class TraceRun:
                     self.exc_lib_frames.append(co.co_name)
                 tb = tb.tb_next
         self.globals = g
+        if self.gen.local_blocks:
+            gc.collect()
+            sys.unraisablehook = old_unraisable
         if rec.abort_fired:
             self.probe("abort_seam_fired")
             self.probe("abort_seam_at_" + str(rec.abort_site))
